@@ -29,6 +29,7 @@ def _run_rules(ctx, report):
         report.guard("C11.PAR", R.par_shape, ctx, report, "C11.PAR", facts, config)
         report.guard("C11.PAR", R.execute_in_pool, ctx, report, "C11.PAR", facts, config)
         report.guard("C11.POOL", R.pool_source, ctx, report, "C11.POOL", facts, config)
+        report.guard("C11.SHARE", S.build_wiring, ctx, report, "C11.SHARE", facts, config)
         report.guard("C11.SHARE", R.pool_share, ctx, report, "C11.SHARE", facts, config)
         report.guard("C11.LOCK", R.lock, ctx, report, "C11.LOCK", facts, config)
         report.guard("C11.INVENTORY", S.pool_inventory, ctx, report, "C11.INVENTORY", facts, config)
